@@ -118,6 +118,7 @@ func Run(c *verdict.Ctx) int {
 		}
 	}
 	// big ones first so that the workers finish together
+	add("cons", c.N(40, 300)) // pruning through the real consensus path (consensus.go); cases 0 and 1 are the long ones
 	add("batch", c.N(6, 20))
 	if c.Thorough() {
 		add("large", 20)
@@ -168,8 +169,12 @@ func Run(c *verdict.Ctx) int {
 	close(jobs)
 	wg.Wait()
 
-	if c.Counter("crash_prefixes_audited") == 0 || c.Counter("op.pruneblocks") == 0 {
+	if c.Replay() == "" && (c.Counter("crash_prefixes_audited") == 0 || c.Counter("op.pruneblocks") == 0) {
 		c.HarnessError("observed nothing: crash prefixes=%d prunes=%d", c.Counter("crash_prefixes_audited"), c.Counter("op.pruneblocks"))
+	}
+	if c.Replay() == "" && (c.Counter("cons.crashes_injected") == 0 || c.Counter("cons.prunes_crossing_batch_boundary") == 0 || c.Counter("cons.retain.above-height") == 0) {
+		c.HarnessError("consensus stage observed too little: crashes=%d batch prunes=%d refused retain heights=%d",
+			c.Counter("cons.crashes_injected"), c.Counter("cons.prunes_crossing_batch_boundary"), c.Counter("cons.retain.above-height"))
 	}
 	if c.Replay() == "" && c.Counter("prunes_crossing_batch_boundary") == 0 {
 		c.HarnessError("no prune crossed the %d-block batch boundary", pruneBatch)
@@ -219,6 +224,14 @@ func drawShape(stream string, r *rand.Rand, thorough bool) shape {
 }
 
 func runCase(c *verdict.Ctx, cs caseSpec) {
+	if cs.Stream == "cons" {
+		t0 := time.Now()
+		runConsCase(c, cs)
+		if os.Getenv("VERIF_C18_TIMING") != "" {
+			fmt.Fprintf(os.Stderr, "timing %s/%d %.2fs\n", cs.Stream, cs.Index, time.Since(t0).Seconds())
+		}
+		return
+	}
 	r := c.Rand(cs.Stream, cs.Index)
 	rn := &runner{c: c, spec: cs, r: r, sh: drawShape(cs.Stream, r, c.Thorough()),
 		crashAudits: map[string]int64{}, opsDone: map[string]int64{}}
